@@ -71,7 +71,7 @@ def cases(rnd, n):
         sw = rnd.choice(["cas", "dsk", "dsk", "cas", "bin"])
         out.append({"seed": rnd.randrange(1 << 30), "names": names, "srckind": rnd.choice(["cas", "dsk"]), "sw": sw, "select": sel,
                     "how": rnd.choice(["same", "upper", "lower", "swap"]), "lens": [rnd.choice([1, 20, 255, 256, 300, 2294, 2295, 2304, 5000]) for _ in range(3)],
-                    "kinds": [rnd.choice([(2, 0), (2, 0), (0, 0), (1, 255)]) for _ in range(3)]})
+                    "kinds": [rnd.choice([(2, 0), (2, 0), (0, 0), (1, 255), (2, 255), (1, 0), (0, 255), (3, 255)]) for _ in range(3)]})
     return out
 
 
